@@ -1,3 +1,4 @@
+import TantivyModel.Proofs.SSTable.FileKey
 import TantivyModel.Proofs.SSTable.WriterStoreOk
 import TantivyModel.Proofs.SSTable.FileWritten
 import TantivyModel.Proofs.SSTable.FileOrd
@@ -1381,6 +1382,33 @@ theorem C15_writer_store_get_small (addrs : List BlockAddr) (hch : Chained addrs
 example : maxDeviation (findBestSlope (rangeEls ⟨0, 0, 7⟩ [⟨1, 7, 14⟩] 14)).1 (rangeEls ⟨0, 0, 7⟩ [⟨1, 7, 14⟩] 14) < 2 ^ 56 ∧
     (findBestSlope (rangeEls ⟨0, 0, 7⟩ [⟨1, 7, 14⟩] 14)).1 < 4294967296 ∧
     META_SIZE * (writerStore [⟨0, 0, 7⟩, ⟨1, 7, 14⟩]).length < 2 ^ 64 := by decide
+
+/-! ## round 2: `get_block_with_key` on file bytes, tantivy-fst as a stated contract -/
+
+/-- `SSTableIndex::get_block_with_key` on the bytes of a version-3 file whose index region is
+`fst | written store | fst_len`: for EVERY FST answer function that meets the stated tantivy-fst
+contract on the separators of the dictionary built from `m`, and the store the writer lays out
+for any chained address list with one address per block, the address returned for a key is the
+recorded address of the block the separator routing selects (`C15_block_routing`: the unique
+block that can hold the key), `none` past the last separator. The real index (tantivy-fst + store)
+is compared with this composition on every generated dictionary. -/
+theorem C15_file_block_for_key {V} (blockLen : Nat) (m : Assoc V) (f : FstIndex) (hf : FstContract f)
+    (hkeys : f.keys = (build blockLen m).blocks.map (·.sep)) (hmulti : (build blockLen m).single = false)
+    (addrs : List BlockAddr) (hch : Chained addrs) (hok : WriterStoreOk addrs)
+    (hcount : addrs.length = (build blockLen m).blocks.length)
+    (data fst : List UInt8) (numTerms version : Nat)
+    (hfst0 : fst.length ≠ 0) (hfst : fst.length < 18446744073709551616)
+    (hdata : data.length < 18446744073709551616)
+    (hn : numTerms < 18446744073709551616) (hv : version < 4294967296) (k : Key) :
+    fileBlockForKey f.geFirst
+        (openFile (finishFile data (fst ++ storeBytes (writerStore addrs) ++ u64enc fst.length) numTerms version)) k
+      = ((build blockLen m).locateKey k).bind (fun id => addrs[id]?) :=
+  file_block_for_key blockLen m f hf hkeys hmulti addrs hch hok hcount data fst numTerms version
+    hfst0 hfst hdata hn hv k
+
+example : fileBlockForKey (fun _ => some 1) (openFile (finishFile (frameBlocks [[16, 7], [16, 9]])
+      ([1, 2, 3] ++ storeBytes [⟨7, 5, 1, 3, ⟨0, 0, 7⟩, [⟨1, 7, 14⟩], 14⟩] ++ u64enc 3) 2 3)) [8]
+    = some ⟨1, 7, 14⟩ := by decide
 
 /-! ## non-vacuity -/
 
